@@ -36,6 +36,9 @@ type Contract struct {
 	Pure      bool // callee may be inlined in expressions
 	ModeBV    bool
 	NoSafety  bool
+	Holds     []string // locks the caller must hold ("x.mu")
+	NoWrap    bool // unsigned arithmetic assumed not to overflow (listed)
+	Exclusive bool // the receiver is not shared during the call: lock discipline waived (listed)
 	Inline    bool // call sites inline the body instead of using the contract
 	Where     string
 	Ghost     []string // ghost update clauses (raw)
@@ -65,7 +68,7 @@ type TypeSpec struct {
 
 var clauseKeywords = map[string]bool{"property": true, "requires": true, "ensures": true, "modifies": true,
 	"panics": true, "loop": true, "invariant": true, "decreases": true, "trusted": true, "pure": true, "mode": true,
-	"nosafety": true, "inline": true, "forall": true, "guards": true, "lockinv": true, "ghost": true, "unroll": true}
+	"nosafety": true, "holds": true, "nowrap": true, "exclusive": true, "inline": true, "forall": true, "guards": true, "lockinv": true, "ghost": true, "unroll": true}
 
 // rewriteImplies turns `A ==> B` (lowest precedence, right associative, split at
 // bracket depth 0) into `(!(A) || (B))`, recursively inside brackets too.
@@ -277,6 +280,18 @@ func (e *Engine) parseContractFile(p *packages.Package, f *ast.File, fname strin
 		case "nosafety":
 			if cur != nil {
 				cur.NoSafety = true
+			}
+		case "holds":
+			if cur != nil {
+				cur.Holds = append(cur.Holds, rest)
+			}
+		case "nowrap":
+			if cur != nil {
+				cur.NoWrap = true
+			}
+		case "exclusive":
+			if cur != nil {
+				cur.Exclusive = true
 			}
 		case "unroll":
 			if cur != nil {
